@@ -85,6 +85,21 @@ CLAIMS = {
    text="Decides structural preconditions of case-insensitive matching: case equivalences and lowercasing reach a class's subtraction and nothing that inspects a class ignores it (R-SUB, R-CASERECUR); callers of GetSetChars honour negation (R-NEGCHARS); the ASCII-only ignore-case search helpers are only reachable for needles tested to be ASCII (R-ASCIIFOLD); reduce() clears IgnoreCase on everything except backreferences before any rewrite, so Ref is the only instruction compared case-insensitively at run time, and refmatch folds both sides with the same function (R-CIREF). It does NOT decide the invariance itself (fold tables, the parser's expansion of literals into per-letter sets, prefix extraction).",
    note="Trusted: R-ASCIIFOLD checks presence of the ASCII test in the function or in every constructing caller, not dominance (the test is correlated with the ignoreCase flag in ways dominance cannot express).",
    ref="DESIGN.md §4 C20"),
+ "C08": dict(
+   technique="static analysis: SSA dominance of the span normalisation, affine evaluation of index expressions, sibling agreement of the byte mappers (phi shape), argument identity of the match-text constructor, byte-offset/rune-position taint",
+   text="Decides structural parts of well-formedness and index conversion: a recorded capture length is always computed after the end<start swap (R-CAPNORM); a group's embedded capture is its last capture (index pair 2c-2, 2c-1), its capture list uses pairs (2i, 2i+1), and group 0 gets exactly one capture from matches[0] (R-LASTCAP); every byte mapper that sizes runes with utf8.RuneLen re-decodes under RuneError, so an invalid byte counts 1 and a real U+FFFD counts 3 (R-RUNEWIDTH); string entry points that return a Match build its text from the original string (R-STRTEXT); byte offsets never flow into rune positions (R-UNITS). It does NOT decide 0 <= index <= index+length <= len for every capture (that depends on the interpreter's positions), balancing compaction, or value-for-value agreement of the three mappers.",
+   note="Trusted: index expressions are compared as affine forms in capcount / the loop variable; other algebraic forms would be reported as mismatches.",
+   ref="DESIGN.md §4 C08"),
+ "C09": dict(
+   technique="static analysis: constant evaluation across packages, affine comparison of encoder/decoder arithmetic (SSA), switch-arm set agreement (AST), loop-direction and dominance checks in the replace drivers, shared direction-awareness and slot-map rules",
+   text="Decides structural conditions for Replace/Split to be the fold of the match sequence: the rule encoding is one affine map with equal constants on both sides (R-REPCONST); every special token has an arm in both expansion functions and the right-to-left one collects a replacement's pieces last-to-first for its back-to-front writer (R-REPCASES); the balancing compaction precedes every expansion of the reused match and the loops stop at count zero before searching again (R-COMPACT); Split and the drivers are direction-aware (R-DIRFOLD); Split's groups go through the number->slot map (R-SLOT). It does NOT decide that the text between matches is copied correctly, $-grammar ambiguities, or that replacing with $& is the identity.",
+   note="Trusted: 'direction-aware' means the direction is consulted; the mirrored arithmetic itself is not checked.",
+   ref="DESIGN.md §4 C09"),
+ "C14": dict(
+   technique="static analysis: lockset dataflow, dominance and must-pass-through on go/ssa for the clock state machine, value identity of the deadline, stale-read analysis of the pooled Runner's timeout fields",
+   text="Decides only the structural skeleton of the timeout machinery: fast.start/running are touched under fast.mu and the clock word only through sync/atomic (R-LOCK); the clock's end is only ever raised, under the lock (R-CLOCKEND); one place spawns the clock goroutine, only when not running and after marking it running, and only the goroutine itself clears the flag after its loop (R-CLOCKSTATE); a deadline beyond the clock's end always extends the clock, and the clock is extended for exactly the deadline that is returned (R-RESTART, R-ENDCOVER); scan and the interpreter poll the deadline in their loops (R-POLL); the timeout fields of a pooled Runner are re-established on every call (R-STALE). Every timing statement of the property — no earlier than about d, no later than d plus a few periods, correctness of the stale-clock refresh, the goroutine actually exiting — is NOT decided and cannot be by this technique.",
+   note="Trusted: go/ssa; time.Sleep/time.Since behaviour is outside the analysis.",
+   ref="DESIGN.md §4 C14"),
 }
 
 NOT_APPLICABLE = {
